@@ -39,6 +39,7 @@ type zzC06 struct {
 	gets, hits  uint64
 	finals      []zzC06Final // every accepted value that was not overwritten in place
 	everDeleted [3]bool
+	ls          *LoadingStore[uint64, uint64] // MENU=1: loading Gets over the same store
 }
 
 // zzC06Final: an accepted value that left (or will leave) the cache as a whole entry: by Delete, eviction, expiry -
@@ -61,6 +62,9 @@ func (h *zzC06) get(k uint64) (uint64, bool) {
 func zzC06New() *zzC06 {
 	vfSetHashMode(1)
 	h := &zzC06{nextVal: 100}
+	if vfConfig("POOL", 0) == 1 {
+		vfSetPoolMode(vfConfig("POOLMODE", 1)) // entry pool on: a collected entry's object is recycled by the next insert
+	}
 	h.capv = int64(vfConfig("CAP", 3))
 	h.door = vfConfig("DOOR", 0) == 1
 	h.origin = vfClockNow()
@@ -68,6 +72,7 @@ func zzC06New() *zzC06 {
 	h.s = NewStore[uint64, uint64](&StoreOptions[uint64, uint64]{
 		MaxSize:    h.capv,
 		Doorkeeper: h.door,
+		EntryPool:  vfConfig("POOL", 0) == 1,
 		Cost: func(v uint64) int64 {
 			c := vfI64("costfn")
 			vfAssume(c >= 1)
@@ -310,12 +315,142 @@ func (h *zzC06) ledger() {
 	vfAssert("history:hits-is-the-number-of-values-returned", st.Hits() == h.hits)
 }
 
+// doRange (MENU=1): Range visits every key at most once, only live and unexpired keys, with their latest value;
+// without capacity pressure it visits every live, unexpired key (C01 / C16 clauses on the same histories).
+func (h *zzC06) doRange() {
+	s := h.s
+	s.timerwheel.clock.RefreshNowCache()
+	var seen [3]int
+	s.Range(func(k, v uint64) bool {
+		if k < 1 || k > 2 {
+			vfFail("range-visits-unknown-key")
+			return true
+		}
+		seen[k]++
+		e := h.model[k]
+		vfAssert("range-visits-only-live-keys", e.live)
+		vfAssert("range-value-is-latest", v == e.val)
+		vfAssert("range-skips-expired", !h.expired(int(k)))
+		return true
+	})
+	for k := 1; k <= 2; k++ {
+		vfAssert("range-visits-a-key-once", seen[k] <= 1)
+		if h.model[k].live && !h.expired(k) && !h.pressure {
+			vfAssert("range-visits-every-live-key", seen[k] == 1)
+		}
+	}
+	// stops when the callback says so
+	calls := 0
+	s.Range(func(k, v uint64) bool { calls++; return false })
+	vfAssert("range-stops-when-told", calls <= 1)
+}
+
+// doLoad (MENU=1): a loading Get over the same store. A hit returns the model's value; otherwise the loader runs
+// once, its value is returned, and it is stored under the same rule as Set (cost within MaxSize; cost 0 = the cost
+// function; its own TTL or none - never the deadline of an expired predecessor).
+func (h *zzC06) doLoad(k int) {
+	s := h.s
+	if h.ls == nil {
+		h.ls = NewLoadingStore(s)
+	}
+	s.timerwheel.clock.RefreshNowCache()
+	lc := vfI64("loaderCost")
+	vfAssume(lc >= 0)
+	vfAssume(lc <= h.capv+2)
+	withTTL := vfChoose("loadTTL", 2) == 1
+	var ttl int64
+	if withTTL {
+		ttl = vfI64("lttl")
+		vfAssume(ttl >= 1)
+		vfAssume(ttl <= 1<<29)
+	}
+	h.nextVal++
+	v := h.nextVal
+	calls := 0
+	h.lastCostFn = -1
+	h.ls.Loader(func(ctx context.Context, key uint64) (Loaded[uint64], error) {
+		calls++
+		return Loaded[uint64]{Value: v, Cost: lc, TTL: time.Duration(ttl)}, nil
+	})
+	prevEnt, prevPresent := s.shards[zzIndex(s, uint64(k))].hashmap[uint64(k)]
+	var prevVal uint64
+	if prevPresent {
+		prevVal = prevEnt.value
+	}
+	got, err := h.ls.Get(context.Background(), uint64(k))
+	h.gets++
+	e := h.model[k]
+	vfAssert("load-no-error", err == nil)
+	vfAssert("loader-runs-at-most-once", calls <= 1)
+	if calls == 0 {
+		h.hits++
+		vfAssert("load-hit-only-live-key", e.live)
+		vfAssert("load-hit-value-is-latest", got == e.val)
+		vfAssert("load-hit-not-expired", !h.expired(k))
+		return
+	}
+	vfReach("loader-ran")
+	vfAssert("load-returns-loaded-value", got == v)
+	if e.live && !h.expired(k) && !h.pressure {
+		vfFail("loader-ran-for-a-live-unexpired-key")
+	}
+	eff := lc
+	if lc == 0 {
+		eff = h.lastCostFn
+		vfAssert("cost-function-consulted-for-cost-0", eff >= 1)
+	}
+	ent, present := s.shards[zzIndex(s, uint64(k))].hashmap[uint64(k)]
+	stored := present && ent.value == v
+	if stored {
+		vfAssert("loaded-value-stored-only-within-max", eff >= 1 && eff <= h.capv)
+		vfAssert("loaded-cost-recorded", ent.weight.Load() == eff)
+		if withTTL {
+			vfAssert("loaded-deadline-is-its-own", ent.expire.Load() == h.now+ttl)
+		} else {
+			vfAssert("loaded-without-ttl-has-no-deadline", ent.expire.Load() == 0)
+		}
+		if prevPresent {
+			for i := range h.finals {
+				if h.finals[i].key == uint64(k) && h.finals[i].val == prevVal {
+					h.finals[i].replaced = true
+				}
+			}
+		}
+		h.finals = append(h.finals, zzC06Final{key: uint64(k), val: v})
+		dl := int64(0)
+		if withTTL {
+			dl = h.now + ttl
+		}
+		h.model[k] = zzC06Ent{live: true, val: v, cost: eff, deadline: dl}
+		if h.occupied() > h.capv {
+			h.pressure = true
+		}
+		gv, hit := h.get(uint64(k))
+		vfAssert("loaded-value-immediately-readable", hit && gv == v)
+	} else {
+		if !h.door {
+			vfAssert("loaded-value-within-max-is-stored", eff > h.capv)
+		}
+		if !e.live {
+			vfAssert("unstored-load-leaves-nothing", !present)
+		}
+	}
+}
+
 func ZZ_C06_History() {
 	h := zzC06New()
 	N := vfConfig("N", 3)
+	menu := 7
+	if vfConfig("MENU", 0) == 1 {
+		menu = 10 // also: Range, loading Get k1, loading Get k2
+	}
 	for i := 0; i < N; i++ {
-		op := vfChoose("op", 7)
+		op := vfChoose("op", menu)
 		switch op {
+		case 7:
+			h.doRange()
+		case 8, 9:
+			h.doLoad(op - 7)
 		case 0, 1:
 			h.doSet(op + 1)
 		case 2:
